@@ -62,7 +62,7 @@ static std::vector<std::string> g_pat;
 static std::string g_kind, g_shape;
 static void fmt_case(char* buf, size_t n, const long* a)
 {
-    snprintf(buf,n,"%s kind=%s shape=%s forests(a,b,c)=%s a=f%lu b=f%lu variant=%ld (function number = base-|V| digits of the truth table, point 0 least significant)", ONAME[a[0]], g_kind.c_str(), g_shape.c_str(), g_pat[a[1]].c_str(), (unsigned long)a[2], (unsigned long)a[3], a[4]);
+    snprintf(buf,n,"%s kind=%s shape=%s forests(a,b,c)=%s a=f%lu b=f%lu variant=%ld (variant = result-kind + 2*alias; alias 1/2: the result edge is operand a/b, 3: both operands are one edge object; function number = base-|V| digits of the truth table, point 0 least significant)", ONAME[a[0]], g_kind.c_str(), g_shape.c_str(), g_pat[a[1]].c_str(), (unsigned long)a[2], (unsigned long)a[3], a[4]);
 }
 
 static void run_binary(const std::map<std::string,std::string>& spec)
@@ -124,10 +124,11 @@ static void run_binary(const std::map<std::string,std::string>& spec)
                 if (!bop) continue;
                 dd_edge r(RF);
                 auto one = [&](unsigned long i, unsigned long j) {
-                    if (!case_lazy(fmt_case, o, pi, (long)i, (long)j, resb)) return;
-                    Table ta = A->table(i), tb = B->table(j), want(P);
-                    int mustAny=0; bool skip=false; bool all00=true, allinfinf=true;
-                    for (long p=0;p<P;p++) { int must; want[p]=scal(ka,o,ta[p],tb[p],must); if (must==3) skip=true; if (must==1||must==2) { mustAny=must; if (must==1 && ta[p]!=0) all00=false; if (must==2 && ta[p]!=INF) allinfinf=false; } }
+                  Table ta, tb, want; int mustAny=0; bool skip=false; bool all00=true, allinfinf=true; bool prepared=false;
+                  auto prep = [&]() { if (prepared) return; prepared=true; ta = A->table(i); tb = B->table(j); want.assign(P,0.0);
+                    for (long p=0;p<P;p++) { int must; want[p]=scal(ka,o,ta[p],tb[p],must); if (must==3) skip=true; if (must==1||must==2) { mustAny=must; if (must==1 && ta[p]!=0) all00=false; if (must==2 && ta[p]!=INF) allinfinf=false; } } };
+                  auto main_case = [&]() {
+                    prep();
                     if (skip) { ctx.counters["skipped_outside_documented_domain"]++; return; }
                     bool threw=false; error::code tc = error::MISCELLANEOUS; const char* tn="";
                     try { bop->compute(A->get(i), B->get(j), r); } catch (MEDDLY::error e) { threw=true; tc=e.getCode(); tn=e.getName(); }
@@ -160,6 +161,25 @@ static void run_binary(const std::map<std::string,std::string>& spec)
                         if (!err.empty()) violation(err.compare(0,12,"NONCANONICAL")==0?"noncanonical-result":"wrong-result","a=[%s] b=[%s]: %s", tab_str(ta).c_str(), tab_str(tb).c_str(), err.c_str());
                     }
                     if (!tab_is_const(want)) note_nontrivial(hmix(hmix(hmix(o*2+resb,pi), i), j));
+                  };
+                  if (case_lazy(fmt_case, o, pi, (long)i, (long)j, resb)) main_case();
+                  // in-place use: the result edge is one of the operand edges (1: a, 2: b), or both operands are the same edge object (3).
+                  // Every sub-case takes a case number whether or not it is executed.
+                  for (int al=1; al<=3; al++) {
+                    const bool applicable = (al==1 && RF==A->F) || (al==2 && RF==B->F) || (al==3 && A->F==B->F && i==j);
+                    if (!applicable) continue;
+                    if (!case_lazy(fmt_case, o, pi, (long)i, (long)j, resb+2*al)) continue;
+                    prep();
+                    if (skip || mustAny) continue;
+                    dd_edge t(RF);
+                    try {
+                        if (al==1) { t = A->get(i); bop->compute(t, B->get(j), t); }
+                        else if (al==2) { t = B->get(j); bop->compute(A->get(i), t, t); }
+                        else { const dd_edge& x = A->get(i); bop->compute(x, x, t); }
+                        std::string err = check_result(t,rk,s,want,rk.range!='r');
+                        if (!err.empty()) violation("wrong-result-alias","a=[%s] b=[%s], %s: %s", tab_str(ta).c_str(), tab_str(tb).c_str(), al==1?"result edge is operand a":al==2?"result edge is operand b":"both operands are the same edge object", err.c_str());
+                    } catch (MEDDLY::error e) { violation("op-error","valid operands (in-place use %d) raised %s", al, e.getName()); }
+                  }
                 };
                 if (pairs=="all") { for (unsigned long i=0;i<U && !ctx.stop;i++) { for (unsigned long j=0;j<U;j++) one(i,j); if (ctx.viol>ctx.maxviol && ctx.only<0 && ctx.upto<0) ctx.stop=true; } }
                 else if (pairs=="evev") { for (unsigned long i : ev1) { if (ctx.stop) break; for (unsigned long j : ev2) { if (thin>1 && hmix(i,j)%thin) continue; one(i,j); one(j,i); } if (ctx.viol>ctx.maxviol && ctx.only<0 && ctx.upto<0) ctx.stop=true; } }
